@@ -182,7 +182,7 @@ func checkOne(c *mon.Case, s pad.Scheme, bs int, m []byte, capMode string) {
 func grid(x *mon.Ctx) {
 	capModes := []string{"exact", "spare", "tight", "fit", "fit+1"}
 	nk := x.Scale(3, len(kinds))
-	reps := x.Scale(1, 3)
+	reps := x.Scale(1, 10)
 	for _, s := range schemes {
 		for bs := 1; bs <= 255; bs++ {
 			for n := 0; n <= 3*bs+1; n++ {
@@ -345,7 +345,7 @@ func acceptSet(x *mon.Ctx) {
 		}
 	}
 	// random block-aligned strings and mutated padded strings for larger blocks
-	n := x.Scale(20000, 400000)
+	n := x.Scale(20000, 4000000)
 	for i := 0; i < n; i++ {
 		c := x.Begin("acceptset-random #%d", i)
 		if c == nil {
